@@ -381,6 +381,8 @@ func runCase1(raw json.RawMessage) interface{} {
 		return runCW(c)
 	case "dx":
 		return runDX(c)
+	case "ra":
+		return runRA(c)
 	case "raw":
 		wire = unhx(c.Wire)
 		obsv, _ := readAll(wire, c.Cuts, c.Big)
